@@ -77,14 +77,16 @@ CLAIMS = {
          "process and in several fresh processes (fresh hash seeds), all token streams and diagnostics compared; impl order compared with the model.",
          COMMON_NOTE + "determinism of syn/quote/proc-macro2 themselves is assumed; the translator's list of hash collections is syntactic (type paths named HashMap/HashSet).",
          "Lean 4 theorems + regenerated source table + repeated/in-process and cross-process expansion comparison"),
- "C17": ("Theorems: no panic in the attribute layer for all oracle records — every value helper, the parameter loop (runParams_noPanic), every "
+ "C17": ("Theorem expand_noPanic: for every feature set and every derive input (every oracle record) the model of derive_input_handler ends in "
+         "items or a diagnostic, never at a panic site - composed from handler lemmas (debug/clone/marker/eqLike/ordLike/default/deref/into_"
+         "Handler_noPanic, handlerFor_noPanic, dispatch_noPanic) over: no panic in the attribute layer for all oracle records — every value helper, the parameter loop (runParams_noPanic), every "
          "type/field builder, the attribute scans (scanMetas/scanAttrs/fromAttrs_noPanic) and the trait-map construction (collectTop_noPanic, "
          "collectTop_idents: every meta reaching a handler is a single identifier, so all `get_ident().unwrap()` are safe; collectTop_nonempty: "
          "`meta[0]` is safe); termination by structural recursion of every model function; regenerated site table lemmas panicSites_known_shapes / "
          "panicSites_placed (every unwrap/expect/index/unreachable!/insert_str/debug_assert of /repo/src has a known shape in a known place). "
          "Tie: adversarial attribute forms and token-level mutations run in-process under catch_unwind, outcome kind compared with the model, "
          "panics confirmed through rustc; deep-nesting probe under rustc.",
-         COMMON_NOTE + "the handler level of the model (Expand.lean) is covered by the correspondence, its no-panic proof is not complete yet (the proved part is the attribute layer all handlers are built from); syn's own parsers and the `parse2(quote!(..#user tokens..)).unwrap()` round-trips are assumed panic-free and exercised by the mutation stream; stack overflow inside syn on ~1000-deep nesting is an open known finding.",
+         COMMON_NOTE + "syn's own parsers and the `parse2(quote!(..#user tokens..)).unwrap()` round-trips are assumed panic-free and exercised by the mutation stream; stack overflow inside syn on ~1000-deep nesting is an open known finding.",
          "Lean 4 theorems over oracle records + regenerated panic-site table + in-process mutation stream with rustc confirmation"),
  "C13": ("Theorems (never accepted, wherever the offence stands): parameter_twice_refused (same switch in any spelling, e.g. name/rename), "
          "bad_parameter_refused (unknown or position-disabled parameter), scanMetas_offence_refused (unknown trait / trait not educed at a field or "
